@@ -135,8 +135,10 @@ def build(rec: Dict[str, Any], seed: int, axis_aligned: bool = False) -> Built:
 
   def body_xml(b):
     pos = r.uniform(-0.3, 0.3, size=3)
+    if collide:
+      pos[2] = abs(pos[2]) * 0.5  # children stay above their parent so that only the lowest geoms touch the floor
     if par[b] == 0:
-      pos = np.array([0.6 * b, 0.0, 0.6 + 0.1 * r.random()]) if collide else pos + np.array([0.5 * b, 0, 1.0])
+      pos = np.array([0.4 * b, 0.25 * r.uniform(-1, 1), r.uniform(0.04, 0.16)]) if collide else pos + np.array([0.5 * b, 0, 1.0])
     q = np.array([1.0, 0, 0, 0]) if axis_aligned else _unit(r, 4)
     a = f' pos="{_v(pos)}" quat="{_v(q)}"'
     if mocap[b]:
